@@ -34,6 +34,8 @@ pub enum Op {
     Advance(u32),
     Reg3(u16),
     Ngp(u16),
+    /// the client comes back from a new source port and sends so many datagrams from there
+    ClientMoves(u8),
 }
 
 #[derive(Debug, Clone, Hash, Serialize, Deserialize)]
@@ -88,6 +90,7 @@ pub fn strategy(max_ops: usize) -> impl Strategy<Value = Case> {
         4 => prop_oneof![Just(0u32), Just(1), 1u32..1200, Just(3001), Just(10_000), Just(10_001)].prop_map(Op::Advance),
         1 => any::<u16>().prop_map(Op::Reg3),
         1 => any::<u16>().prop_map(Op::Ngp),
+        1 => (1u8..5).prop_map(Op::ClientMoves),
     ];
     (1u8..=3, any::<u8>(), any::<bool>(), any::<bool>(), vec(op, 1..max_ops)).prop_map(|(n_links, up_mask, probing, classic, ops)| Case { n_links, up_mask, probing, classic, ops })
 }
@@ -127,6 +130,17 @@ pub fn check(case: &Case, obs: &mut Obs) -> CheckResult {
             }
             Op::Reg3(l) => sh.deliver_reg3(idx(*l, n)),
             Op::Ngp(l) => sh.uplink_pkt(idx(*l, n), &[0x92, 0x11]),
+            Op::ClientMoves(k) => {
+                sh.switch_client();
+                client_seen = true;
+                obs.class("client-came-back-from-a-new-port");
+                for _ in 0..*k {
+                    seq += 1;
+                    let mut p = vec![0u8; 32];
+                    p[0..4].copy_from_slice(&seq.to_be_bytes());
+                    sh.client_pkt(&p);
+                }
+            }
             Op::Client(k) => {
                 if *k > 0 {
                     client_seen = true;
